@@ -688,11 +688,17 @@ impl Model<Rust> {
                     Rust::tuple_struct_from_type(rust_type).with_tag_opt(tag),
                 ));
             }
-            AsnType::TypeReference(_, tag) => {
-                let rust_type = Self::definition_type_to_rust_type(name, asn, *tag, ctxt);
+            AsnType::TypeReference(_, reference_tag) => {
+                let rust_type = Self::definition_type_to_rust_type(name, asn, *reference_tag, ctxt);
+                // the own tag of the definition has precedence, otherwise the definition has
+                // the (given or resolved) tag of the referenced type
+                let tag = tag.or(*reference_tag).or(match &rust_type {
+                    RustType::Complex(_, resolved_tag) => *resolved_tag,
+                    _ => None,
+                });
                 ctxt.add_definition(Definition(
                     name.to_string(),
-                    Rust::tuple_struct_from_type(rust_type).with_tag_opt(*tag),
+                    Rust::tuple_struct_from_type(rust_type).with_tag_opt(tag),
                 ));
             }
 
